@@ -148,6 +148,11 @@ func stCommit(h *Hist, r *mon.Rand) *Call {
 			m.Size = 0
 		}
 	}
+	if kind == "delete" && h.Focus == "C12" && ts > v.StartTime && r.Chance(0.5) {
+		// the owner signed the delete marker some time ago (any date since the allocation started); the blobber redeems it only now
+		kind = "delete-old-dated"
+		m.Ts = v.StartTime + int64(r.U64()%uint64(ts-v.StartTime))
+	}
 	signer, sender := owner, bp.W
 	var chainData []byte
 	var replay []byte
@@ -237,6 +242,8 @@ func stCommit(h *Hist, r *mon.Rand) *Call {
 			}
 		}
 	}
+	// a delete marker worth more (by the allocation's terms, at the marker's date) than the blobber has outstanding
+	aboveOutstanding := h.Focus == "C12" && m.Size < 0 && kind != "rollback" && m.Alloc == a.ID && m.Blobber == ba.BlobberID && dmcAbove(h.stConf(), v, ba, m.Size, m.Ts)
 	in := map[string]interface{}{"allocation_root": m.Root, "prev_allocation_root": m.Prev, "write_marker": m.json(signer)}
 	if len(chainData) > 0 {
 		in["chain_data"] = chainData // []byte -> base64
@@ -265,6 +272,10 @@ func stCommit(h *Hist, r *mon.Rand) *Call {
 		if o.Outcome != "success" || replay != nil || m.Alloc != a.ID || m.Blobber != blobberID {
 			return
 		}
+		if aboveOutstanding {
+			h.C("C12", "delete_marker_above_outstanding_value")
+			h.C("C12", "dmc:random-op|"+kind+"|above-outstanding")
+		}
 		w := a.WM[blobberID]
 		if w == nil {
 			w = &stWM{}
@@ -272,6 +283,96 @@ func stCommit(h *Hist, r *mon.Rand) *Call {
 		}
 		w.Root, w.Prev, w.Ts, w.Size, w.V2, w.ChainHash, w.ChainSize, w.LastRaw = m.Root, m.Prev, m.Ts, m.Size, m.V2, m.ChainHash, m.ChainSize, raw
 		w.Used += delta
+		w.Count++
+	}
+	return c
+}
+
+// ---- write markers with an explicit size change and date (directed scenarios) ---------------------------------------------------
+//
+// The owner signs a marker at one time, the blobber redeems it at another: nothing but [allocation start, expiration] bounds the
+// marker's timestamp, and it is the marker's timestamp (not the transaction's) that prices the tokens moved between write pool and
+// challenge pool. dmcCommitAt builds a valid marker of the allocation's owner for one blobber with a given size change (negative =
+// delete) and a given date; dmcMarkerValue is what such a marker is worth by the allocation's terms.
+
+const dmcChunk = 64 * stKB // smallest unit the contract prices (smaller size changes count as one unit)
+
+// dmcMarkerValue: |size| (at least one unit) in GB x the blobber's write price of the allocation x rest of the allocation's duration
+// at the marker's date, in time units
+func dmcMarkerValue(conf *stConfView, v *stAllocView, ba *stBAView, size, ts int64) float64 {
+	if size < 0 {
+		size = -size
+	}
+	if size == 0 || conf.TimeUnit <= 0 || ts > v.Expiration {
+		return 0
+	}
+	if size < dmcChunk {
+		size = dmcChunk
+	}
+	rest := float64(v.Expiration-ts) * 1e9 / float64(conf.TimeUnit)
+	return float64(size) / stGB * float64(ba.Terms.WritePrice) * rest
+}
+
+// dmcAbove: is a delete marker (size < 0) worth more than what the blobber has outstanding in the given view of the allocation
+func dmcAbove(conf *stConfView, v *stAllocView, ba *stBAView, size, ts int64) bool {
+	return size < 0 && uint64(dmcMarkerValue(conf, v, ba, size, ts)) > ba.CPIntegral
+}
+
+func dmcCommitAt(h *Hist, r *mon.Rand, a *stAlloc, v *stAllocView, ba *stBAView, size, ts int64, kind, scenario string) *Call {
+	st := h.S.St
+	owner := h.W.Wallets[v.Owner]
+	bp := st.blobberByID(ba.BlobberID)
+	if owner == nil || bp == nil {
+		return nil
+	}
+	if ts > v.Expiration {
+		ts = v.Expiration
+	}
+	if ts < v.StartTime {
+		ts = v.StartTime
+	}
+	used := int64(0)
+	if ba.Stats != nil {
+		used = ba.Stats.UsedSize
+	}
+	if size > ba.Size-used {
+		size = ba.Size - used
+	}
+	if size < -used {
+		size = -used
+	}
+	if size == 0 {
+		return nil
+	}
+	last := ba.LastWriteMarker
+	m := &stWMFields{Root: stHash(fmt.Sprintf("root:%s:%d", a.ID, st.next())), Prev: ba.AllocationRoot, FileMeta: stHash(fmt.Sprintf("fmr-%d", st.next())),
+		Alloc: a.ID, Blobber: ba.BlobberID, Client: v.Owner, Ts: ts, Size: size}
+	m.V2 = (last != nil && last.Version == "v2") || (last == nil && r.Chance(0.3))
+	if m.V2 {
+		prevCH, prevCS := "", int64(0)
+		if last != nil {
+			prevCH, prevCS = last.ChainHash, last.ChainSize
+		}
+		m.ChainSize = prevCS + size
+		m.ChainHash = stChainHash(prevCH, nil, m.Root)
+	}
+	in := map[string]interface{}{"allocation_root": m.Root, "prev_allocation_root": m.Prev, "write_marker": m.json(owner)}
+	c := stCall(h, r, "commit_connection", bp.W, in, 0)
+	c.Meta["alloc"], c.Meta["blobber"], c.Meta["kind"], c.Meta["scenario"] = a.ID, ba.BlobberID, kind, scenario
+	c.Meta["marker"] = map[string]interface{}{"size": m.Size, "timestamp": m.Ts, "signer": owner.ID, "client": m.Client, "alloc": m.Alloc, "blobber": m.Blobber,
+		"root": m.Root, "prev": m.Prev, "v2": m.V2, "chain_size": m.ChainSize, "used_before": used, "blobber_alloc_size": ba.Size, "replay": false}
+	raw := stFreeze(c)
+	c.After = func(h *Hist, o *TxnObs) {
+		if o.Outcome != "success" {
+			return
+		}
+		w := a.WM[m.Blobber]
+		if w == nil {
+			w = &stWM{}
+			a.WM[m.Blobber] = w
+		}
+		w.Root, w.Prev, w.Ts, w.Size, w.V2, w.ChainHash, w.ChainSize, w.LastRaw = m.Root, m.Prev, m.Ts, m.Size, m.V2, m.ChainHash, m.ChainSize, raw
+		w.Used += size
 		w.Count++
 	}
 	return c
